@@ -1,7 +1,13 @@
 (* Property C05: statement pins.  Nothing but restated theorems closed by [exact], with
    Print Assumptions under each.  Written by tools/mkprops.py at development time; committed. *)
 From Verif Require Import Base.Bytes Model.Headers Model.Requirements Model.Validate.
-From Verif Require Import Proofs.ReqProofs.
+From Coq Require Import List Bool NArith ZArith Lia.
+From Coq Require Import Strings.Byte.
+From Verif Require Import Base.Bytes Base.Hex Base.Utf8 Crypto.Hmac Time.Calendar Time.Iso8601 Time.Render.
+From Verif Require Import Generated.SrcConsts Model.Errors Model.Uri Model.Query Model.Headers Model.Labels Model.Requirements Model.Validate Spec.PathSpec Spec.QuerySpec Spec.Signer Spec.RequestSpec.
+From Verif Require Import Proofs.QueryProofs Proofs.HeaderProofs.
+From Verif Require Proofs.KeyProofs Crypto.Sha256.
+From Verif Require Import Proofs.ReqProofs Proofs.PipelineProofs.
 
 Theorem C05_add_name_denotes :
   forall l h n, denotes (add_name l h) n = denotes l n || bytes_eqb (lower n) (lower h).
@@ -33,3 +39,25 @@ Theorem C05_reqs_ok_meaning :
   /\ (forall p k vs, In p (prefixes r) -> In (k, vs) hm -> starts_with (lower p) k = true -> In k signed).
 Proof. exact ReqProofs.C05_reqs_ok_meaning. Qed.
 Print Assumptions C05_reqs_ok_meaning.
+
+Theorem C13_requirements :
+  forall (H : bytes -> bytes), forall rq cf pv cr pts body ap,
+    from_request_parts H rq cf = Ok (cr, pts, body) ->
+    carrier_params cr = Ok ap ->
+    host_signed (ap_signed ap) = false \/ reqs_ok (cf_reqs cf) (cr_headers cr) (ap_signed ap) = false ->
+    validate H rq cf pv = ([], Refused SignatureDoesNotMatch).
+Proof. exact PipelineProofs.C13_requirements. Qed.
+Print Assumptions C13_requirements.
+
+Theorem C05_get_auth_parameters_eq :
+  forall cr rs, cr_good cr ->
+  get_auth_parameters cr rs =
+  match params_failure cr with
+  | Some k => Err k
+  | None =>
+      if negb (host_signed (ap_signed (sel_params cr))) then Err SignatureDoesNotMatch
+      else if negb (reqs_ok rs (cr_headers cr) (ap_signed (sel_params cr))) then Err SignatureDoesNotMatch
+      else Ok (sel_params cr)
+  end.
+Proof. exact PipelineProofs.get_auth_parameters_eq. Qed.
+Print Assumptions C05_get_auth_parameters_eq.
